@@ -255,12 +255,18 @@ impl SessionStorageBackend for SqliteSessionStore {
         // An expired record that has not been reclaimed yet may still be stored under `new_id`.
         // It must not get in the way of the renaming (it would trip the primary key constraint
         // and be reported as a duplicate id), so we get rid of it first.
+        // The two statements run in one transaction: nobody can slip a record under `new_id`
+        // between the clean-up and the renaming.
+        let mut tx = match self.0.begin().await {
+            Ok(tx) => tx,
+            Err(e) => return Err(ChangeIdError::Other(e.into())),
+        };
         let reclaim = sqlx::query(
             "DELETE FROM sessions \
             WHERE id = ? AND deadline <= unixepoch()",
         )
         .bind(new_id.inner().to_string());
-        if let Err(e) = reclaim.execute(&self.0).await {
+        if let Err(e) = reclaim.execute(&mut *tx).await {
             return Err(ChangeIdError::Other(e.into()));
         }
 
@@ -271,8 +277,14 @@ impl SessionStorageBackend for SqliteSessionStore {
         )
         .bind(new_id.inner().to_string())
         .bind(old_id.inner().to_string());
-        match query.execute(&self.0).await {
-            Ok(r) => as_unknown_id_error(&r, old_id).map_err(Into::into),
+        match query.execute(&mut *tx).await {
+            Ok(r) => {
+                if let Err(e) = tx.commit().await {
+                    return Err(ChangeIdError::Other(e.into()));
+                }
+                as_unknown_id_error(&r, old_id).map_err(Into::into)
+            }
+            // The transaction is rolled back when `tx` is dropped.
             Err(e) => {
                 if let Err(e) = as_duplicated_id_error(&e, new_id) {
                     Err(e.into())
